@@ -5,7 +5,7 @@ from typing import TYPE_CHECKING
 import networkx as nx
 
 from pipefunc._pipefunc import PipeFunc
-from pipefunc._utils import at_least_tuple
+from pipefunc._utils import _is_equal, at_least_tuple
 from pipefunc.typing import (
     Array,
     NoAnnotation,
@@ -15,6 +15,8 @@ from pipefunc.typing import (
 )
 
 if TYPE_CHECKING:
+    from typing import Any
+
     from ._types import OUTPUT_TYPE
 
 
@@ -30,13 +32,20 @@ def validate_consistent_defaults(
                 continue
             if arg not in arg_defaults:
                 arg_defaults[arg] = default_value
-            elif default_value != arg_defaults[arg]:
+            elif _defaults_differ(default_value, arg_defaults[arg]):
                 msg = (
                     f"Inconsistent default values for argument '{arg}' in"
                     " functions. Please make sure the shared input arguments have"
                     " the same default value or are set only for one function."
                 )
                 raise ValueError(msg)
+
+
+def _defaults_differ(a: Any, b: Any) -> bool:
+    try:
+        return bool(a != b)
+    except ValueError:  # e.g., NumPy arrays compare element-wise
+        return not _is_equal(a, b)
 
 
 def validate_consistent_type_annotations(graph: nx.DiGraph) -> None:
